@@ -116,6 +116,15 @@ class Sim:
         import numpy as np
         from incomplete_cooperative.run.save import Output, get_outputs_from_file, json_serializer, save_json
         out = make_output(out_spec)
+        if out_spec.get("reuse"):
+            # one Output object serves several saves (a sweep that keeps the object and assigns the new matrices / arguments)
+            shared = getattr(self, "shared_output", None)
+            if shared is None:
+                self.shared_output = out
+            else:
+                shared.data, shared.actions, shared.parsed_args = out.data, out.actions, out.parsed_args
+                out = shared
+                res.label("output-object-reused")
         before_text = self.path.read_text() if self.path.exists() else None
         try:
             before = json.loads(before_text) if before_text is not None else {}
@@ -326,8 +335,10 @@ def make_machine():
             self.case = {"saves": []}
             self.res = Result()
 
-        @rule(name=NAMES, out=out_specs())
-        def save(self, name, out):
+        @rule(name=NAMES, out=out_specs(), reuse=st.booleans())
+        def save(self, name, out, reuse):
+            if reuse:
+                out = dict(out, reuse=True)
             self.case["saves"].append([name, out])
             self.ctx.current_case = self.case
             self.sim.save(name, out, self.res)
